@@ -8,7 +8,7 @@ import scipy.sparse as sps
 
 from .core import sub_rng
 
-TEMPLATES = ["T1", "T1", "T2", "T3", "T4", "T4", "T5", "T6", "T7"]
+TEMPLATES = ["T1", "T1", "T2", "T3", "T4", "T4", "T5", "T6", "T7", "T8"]
 _H = {}
 
 
@@ -309,6 +309,31 @@ def build(pym, cfg):
         c = sig("c")
         mods.append(pym.EinSum([a, a], c, expression="i,i->"))
         seedable += [sigs.index(c), sigs.index(z2), sigs.index(a)]
+    elif t == "T8":
+        # dense chain: stiffness -> dense -> Inverse -> trace;  dense EigenSolve (full spectrum);  ConcatSignal of both
+        K = sig("K")
+        # no clamped dofs (they would give repeated eigenvalues, for which eigenvector sensitivities are documented as not
+        # implemented); grounded by distinct springs instead
+        nfull = nn * ndof
+        mods.append(pym.AssembleStiffness(e, K, dom, add_constant=sps.diags(0.2 + 0.05 * np.arange(nfull), format="csc")))
+        Kd = sig("Kd")
+        mods.append(H["Densify"](K, Kd))
+        Ki = sig("Kinv")
+        mods.append(pym.Inverse(Kd, Ki))
+        tr = sig("tr")
+        mods.append(pym.EinSum([Ki], tr, expression="ii->"))
+        lam, Q = sig("lam"), sig("Q")
+        mods.append(pym.EigenSolve([Kd], [lam, Q], hermitian=True if cfg["oseed"] % 2 else None))
+        out["eig"] = (sigs.index(lam), sigs.index(Q))
+        trv = sig("trv")
+        mods.append(H["Scale"](tr, trv, a=1.0, b=0.0))
+        cc = sig("cc")
+        mods.append(pym.ConcatSignal([lam, lam[0:2]], cc))
+        g = sig("g")
+        mods.append(pym.EinSum([cc, cc], g, expression="i,i->"))
+        gc = sig("gc")
+        mods.append(pym.Scaling(g, gc, scaling=10.0, minval=0.5))
+        seedable += [sigs.index(gc), sigs.index(trv), sigs.index(lam)] + ([sigs.index(Q)] if cfg["seedQ"] else [])
     elif t == "T7":
         P = sig("P")
         tb = np.sort(left)
